@@ -183,6 +183,22 @@ func runC13PrimaryChange(c *core.Case, k int) {
 	c.Count("primary_changes_while_halted", 1)
 	hist = append(hist, "lease moved to n2 ("+how+")")
 	before := map[string]mon.PosKey{"n0": mon.PosOf(A.Node, "db"), "n2": mon.PosOf(B.Node, "db")}
+	// ---- a forwarded transaction of the holder that was on its way to n0 when n0
+	// lost the lease arrives there now: well-formed, the next of n0's history, with
+	// the id of the lock n0 granted. n0 is no primary any more.
+	if imgA, ok := led.get("db", before["n0"]); ok && haltID != 0 && !A.Exited() {
+		snap := c07StableSnapshot(A.Node, "db")
+		code, perr := postTx(A.URL(), R.Store.ID(), fmt.Sprint(haltID), forgeLTX(A, imgA, R.Store.ID()))
+		time.Sleep(10 * time.Millisecond)
+		snap2 := c07StableSnapshot(A.Node, "db")
+		hist = append(hist, fmt.Sprintf("late forwarded transaction sent to n0: status %d err %v", code, perr))
+		if code == 200 || snap2.pos != snap.pos || snap2.ltx != snap.ltx {
+			c.Violate("C13/former-primary-accepted-forwarded-tx", fmt.Sprintf("late-forward: n0 lost its lease (%s) and n2 is primary; a forwarded transaction with the id of the halt lock n0 had granted was answered %d by n0 and its position went %s -> %s: a node without the lease published a transaction", how, code, snap.pos, snap2.pos), detail())
+			return
+		}
+		c.Count("late_forward_to_former_primary_refused", 1)
+		before["n0"] = mon.PosOf(A.Node, "db")
+	}
 	// ---- the holder writes again
 	rb := mon.PosOf(R.Node, "db")
 	_, werr := rw.txn(2)
